@@ -9,27 +9,30 @@ using namespace Fastor; using namespace vp::es;
 // ---- simulation of the known defect (D11): every level of the network pairs a (k-1)-operand sub-network with the remaining
 // operand; the pairwise step yields its free labels in PAIRING order, and that buffer is then reinterpreted (flat copy) as a
 // tensor whose labels are in first-appearance order. `variant[k]` is the choice the library reported for the k-operand level.
-struct Sim { std::vector<size_t> labels; std::vector<long double> data; };   // labels = DECLARED order, data = actual buffer
+struct Sim { std::vector<size_t> labels; std::vector<long double> data; };   // labels = ACTUAL axis order of the buffer
 inline std::vector<size_t> dims_for(const std::vector<size_t>& labels, const std::map<size_t, size_t>& ext) { std::vector<size_t> d; for (auto l : labels) d.push_back(ext.at(l)); return d; }
-inline Sim sim_pair(const Sim& x, const Sim& y, const std::map<size_t, size_t>& ext, const std::vector<size_t>& declared) {
+// one pairwise step: free labels come out in pairing order (x's free labels, then y's). Inside a network the library passes exactly
+// that label list on to the next level (cost_model::resulting_index), so intermediate levels stay consistent; only the FINAL buffer
+// is flat-copied into the declared result type whose labels are in order of first appearance.
+inline Sim sim_pair(const Sim& x, const Sim& y, const std::map<size_t, size_t>& ext) {
     std::vector<Operand> ops = { { x.labels, dims_for(x.labels, ext) }, { y.labels, dims_for(y.labels, ext) } };
-    std::vector<long double> out; std::vector<size_t> od;
-    ref_einsum<long double, long double>(ops, { x.data.data(), y.data.data() }, {}, out, od);   // free labels in pairing order
-    return { declared, out };                                                                    // flat reinterpretation in the declared order
+    Sim r; std::vector<size_t> od;
+    ref_einsum<long double, long double>(ops, { x.data.data(), y.data.data() }, {}, r.data, od);
+    r.labels = free_labels(ops);
+    return r;
 }
 template <class T>
 inline Sim sim_network(const std::vector<Operand>& ops, const std::vector<const T*>& data, const std::map<size_t, size_t>& ext, const std::map<int, int>& variant) {
     size_t k = ops.size();
     if (k == 1) { size_t n = 1; for (auto d : ops[0].dims) n *= d; Sim s; s.labels = ops[0].labels; s.data.assign(data[0], data[0] + n); return s; }
-    std::vector<size_t> declared = free_labels(ops);
-    if (k == 2) { Sim a = sim_network<T>({ ops[0] }, { data[0] }, ext, variant), b = sim_network<T>({ ops[1] }, { data[1] }, ext, variant); return sim_pair(a, b, ext, declared); }
+    if (k == 2) { Sim a = sim_network<T>({ ops[0] }, { data[0] }, ext, variant), b = sim_network<T>({ ops[1] }, { data[1] }, ext, variant); return sim_pair(a, b, ext); }
     int v = variant.count((int)k) ? variant.at((int)k) : 0;
     size_t removed = (size_t)v >= k - 1 ? 0 : k - 1 - (size_t)v;   // variant 0 removes the last operand, variant >= k-1 the first
     std::vector<Operand> sub; std::vector<const T*> sd;
     for (size_t i = 0; i < k; ++i) if (i != removed) { sub.push_back(ops[i]); sd.push_back(data[i]); }
     Sim t = sim_network<T>(sub, sd, ext, variant);
     Sim r = sim_network<T>({ ops[removed] }, { data[removed] }, ext, variant);
-    return v == 0 ? sim_pair(t, r, ext, declared) : sim_pair(r, t, ext, declared);
+    return v == 0 ? sim_pair(t, r, ext) : sim_pair(r, t, ext);
 }
 
 template <class RT, class T>
